@@ -610,6 +610,16 @@ func init() {
 				q := r.fork(uint64(i))
 				hs = append(hs, compose(fmt.Sprintf("m%d", i), q, matched, 1+q.intn(8), false))
 			}
+			// an accept nobody dials runs out its window; matched pairs afterwards (same direction and the other) still connect
+			hs = append(hs, &history{name: "accept-timeout-then-pairs", ops: []hop{{0, 'a', 60, 0, "unmatched"}, {0, 'a', 60, 1, "unmatched"},
+				{5700, 'a', 61, 0, "matched"}, {5800, 'd', 61, 0, "matched"}, {5700, 'a', 62, 1, "matched"}, {5800, 'd', 62, 1, "matched"}}})
+			// the same NUMBER in flight in both directions at once (each side's NextId counts from 1): accept-first and dial-first
+			hs = append(hs, &history{name: "same-number-accept-first", ops: []hop{
+				{0, 'a', 70, 0, "matched"}, {0, 'a', 70, 1, "matched"}, {300, 'd', 70, 0, "matched"}, {600, 'd', 70, 1, "matched"}}})
+			hs = append(hs, &history{name: "same-number-dial-first", ops: []hop{
+				{0, 'd', 71, 0, "matched"}, {300, 'a', 71, 1, "matched"}, {600, 'a', 71, 0, "matched"}, {900, 'd', 71, 1, "matched"}}})
+			hs = append(hs, &history{name: "same-number-interleaved", ops: []hop{
+				{0, 'a', 72, 0, "matched"}, {200, 'd', 72, 1, "matched"}, {400, 'a', 72, 1, "matched"}, {600, 'd', 72, 0, "matched"}}})
 			// a bulk write long after Accept, in both directions: complete, in order, no left-over deadline
 			hs = append(hs, &history{name: "late-bulk", ops: []hop{{0, 'a', 30, 0, "latebulk"}, {50, 'd', 30, 0, "latebulk"}, {0, 'd', 31, 1, "latebulk"}, {80, 'a', 31, 1, "latebulk"}}})
 			return hs, nil
